@@ -31,8 +31,8 @@ structure Fixes where
   nilElems     : Bool   -- null producers / topics / channels / clients are skipped
   nilE2e       : Bool   -- TopicStats.Add / ChannelStats.Add tolerate a missing e2e latency
   chanNotFound : Bool   -- channelHandler answers 404 when no node reports the channel
-  nilPct       : Bool := true   -- E2eProcessingLatencyAggregate.UnmarshalJSON drops null percentile entries (F24)
-  clearNodes   : Bool := true   -- GetNSQDStats discards a `nodes` member sent by the upstream (F25)
+  nilPct       : Bool := true   -- E2eProcessingLatencyAggregate.UnmarshalJSON drops null percentile entries (F53)
+  clearNodes   : Bool := true   -- GetNSQDStats discards a `nodes` member sent by the upstream (F54)
 deriving DecidableEq, Repr
 
 def Fixes.all : Fixes := ⟨true, true, true, true, true, true⟩
